@@ -507,6 +507,30 @@ struct Driver {
     if (!crashed && !intr) return;
     if (r.plan.dry || !r.plan.tool.empty() || r.external_edit) return;
     for (auto& kv : r.res.fired) if (kv.first.compare(0, 9, "io_error_") == 0) return;
+    // "what the next invocation trusts": a statement with deps = gcc/msvc that the killed ninja had put on
+    // record as done (a new build-log entry reached the disk) must have the dependencies of that very run in
+    // the deps log - the entry is what makes the next build skip the command and use them
+    if (crashed && !(w.sc.features & F_HOSTILE_NAMES) && !r.log_torn_tail_before && !r.plan.garbage_child_output) {
+      for (auto& x : r.spawns) {
+        if (x.deps_kind < 2 || x.reap_status != 0 || !x.reap_seq || x.outs.empty() || r.epochs > 1) continue;
+        if (x.stmt >= (int)w.sc.stmts.size() || !w.sc.stmts[x.stmt].alive || w.sc.stmts[x.stmt].deps_kind != x.deps_kind) continue;
+        auto a = r.log_after.last.find(x.outs[0]), b = r.log_before.last.find(x.outs[0]);
+        if (a == r.log_after.last.end()) continue;
+        bool fresh = b == r.log_before.last.end() || b->second.start != a->second.start || b->second.end != a->second.end || b->second.mtime != a->second.mtime || b->second.hash != a->second.hash;
+        if (!fresh) continue;
+        // (only the last run of the statement in this invocation counts)
+        bool later = false;
+        for (auto& y : r.spawns) if (y.stmt == x.stmt && y.seq > x.seq) later = true;
+        if (later) continue;
+        rr.stats.n["killed_recorded_deps_checked"]++;
+        std::set<std::string> want(x.reported_deps.begin(), x.reported_deps.end());
+        auto rec = r.deps_after.last.find(x.outs[0]);
+        std::set<std::string> have;
+        if (rec != r.deps_after.last.end()) have.insert(rec->second.deps.begin(), rec->second.deps.end());
+        if (rec == r.deps_after.last.end() || have != want)
+          w.Report("C07", "recorded_without_deps", "the killed ninja left a build-log entry for " + x.outs[0] + " (statement " + std::to_string(x.stmt) + " is on record as done) but the deps log does not hold the dependencies that run reported" + (rec == r.deps_after.last.end() ? " (no record at all)" : " (an older record)"));
+      }
+    }
     World f = w.Fork();
     f.label = "recovery";
     InvPlan p;
